@@ -42,7 +42,7 @@ func (d *authDomain) step(f []string) string {
 		defer os.Remove(tmp.Name())
 		for _, l := range f[1:] {
 			fields := strings.Split(l, ":")
-			fields[0] = plainOf(fields[0])
+			fields[0] = un(plainOf(fields[0]))
 			for i := 1; i < len(fields); i++ {
 				fields[i] = un(fields[i])
 			}
@@ -60,7 +60,7 @@ func (d *authDomain) step(f []string) string {
 		if d.file == nil {
 			return "nohandler"
 		}
-		p, err := d.file.Authenticate(context.Background(), auth.ApplicationContext{Username: []byte(plainOf(f[1])), Password: []byte(plainOf(f[2]))}, auth.TransportContext{})
+		p, err := d.file.Authenticate(context.Background(), auth.ApplicationContext{Username: []byte(un(plainOf(f[1]))), Password: []byte(un(plainOf(f[2])))}, auth.TransportContext{})
 		if err != nil {
 			return "reject"
 		}
